@@ -856,7 +856,8 @@ func sorted(s *scope, args []pyObject) pyObject {
 	if reverse {
 		order = GreaterThan
 	}
-	l = l[:]
+	// Sort a copy: the caller's list must not change.
+	l = slices.Clip(slices.Clone(l))
 	if key == nil {
 		sort.Slice(l, func(i, j int) bool {
 			return s.operator(order, l[i], l[j]).IsTruthy()
@@ -883,7 +884,8 @@ func sorted(s *scope, args []pyObject) pyObject {
 func reversed(s *scope, args []pyObject) pyObject {
 	l, ok := args[0].(pyList)
 	s.Assert(ok, "irreversible type %s", args[0].Type())
-	l = l[:]
+	// Reverse a copy: the caller's list must not change.
+	l = slices.Clip(slices.Clone(l))
 	slices.Reverse(l)
 	return l
 }
